@@ -14,14 +14,19 @@
 //!   w a|n|p <net> <script> <hash> <coin> [<rid>]  withdrawal of <coin> lovelace (0 allowed) from the reward account (network, credential)
 //!   v a|n|p <0|1|2> <script> <hash> [<rid>] vote of a committee / DRep / stake-pool voter
 //!   g a|n|p <kind> <policy|~> <id> [<rid>]  proposal (GovernanceAction variant 0..6, policy hash, deposit = id)
+//! In w and v ops <hash> may be `hex@seed` too (the credential is the hash of the inline script the witness carries).
+//! Case labels select the route: `wrap*` = certificates / withdrawals / native mint through the deprecated TransactionBuilder
+//! wrappers (set_certs, set_withdrawals, add_mint_asset, set_mint_asset); `coinsel*` = no funding input, the builder selects
+//! key inputs itself with add_inputs_from (the selected outpoints are reported in the S section and count as i k calls).
 //! A script/policy hash token is `hex` (reference-script source carrying that hash) or `hex@seed` (inline script
 //! built from the seed; the harness checks that its hash is `hex`).
 //! The caller's redeemers carry a wrong tag and index on purpose (cert, 77): the builder must overwrite both.
 //!
-//! Result:  ok E <flags> I n {txhash:ix} C n {…} M n {policy} X n {kind.script.id} W n {net.script.hash}
+//! Result:  ok E <flags> S n {txhash:ix} I n {txhash:ix} C n {…} M n {policy} X n {kind.script.id} W n {net.script.hash}
 //!             V n {kind.script.hash} G n {kind.policy.id} R n {tag.index.data}
 //!   flags = one 0/1 per call (1 = the call returned Ok); the body items are read back from the SERIALISED
-//!   transaction in wire order, the redeemers from its witness set;  `builderr E <flags>` when nothing was built.
+//!   transaction in wire order, the redeemers from its witness set;  `builderr E <flags> S n {..}` when nothing was built;
+//!   S = inputs the builder selected itself (coinsel), each also contributes a 1 to the flags.
 #![allow(deprecated)]
 use cardano_serialization_lib::*;
 use csl_verif_harness::util::*;
@@ -47,8 +52,8 @@ enum Op {
     In { col: bool, kind: InK, tx: Vec<u8>, ix: u32 },
     Mint { policy: H, plutus: Option<u64>, is_ref: bool, asset: u64, amount: i64, set: bool },
     Cert { wk: Wk, kind: u32, script: bool, id: u64 },
-    Wd { wk: Wk, net: u8, script: bool, hash: Vec<u8>, coin: u64 },
-    Vote { wk: Wk, vk: u8, script: bool, hash: Vec<u8> },
+    Wd { wk: Wk, net: u8, script: bool, hash: H, coin: u64 },
+    Vote { wk: Wk, vk: u8, script: bool, hash: H },
     Prop { wk: Wk, kind: u32, policy: Option<Vec<u8>>, id: u64 },
 }
 
@@ -72,8 +77,8 @@ impl Op {
                 Some(r) => format!("m {} p {} {} {} {} {}", policy.show(), b01(*is_ref), r, asset, amount, b01(*set)),
             },
             Op::Cert { wk, kind, script, id } => { let (k, r) = wk_show(wk); format!("x {} {} {} {}{}", k, kind, b01(*script), id, r) }
-            Op::Wd { wk, net, script, hash, coin } => { let (k, r) = wk_show(wk); format!("w {} {} {} {} {}{}", k, net, b01(*script), hex_or_dash(hash), coin, r) }
-            Op::Vote { wk, vk, script, hash } => { let (k, r) = wk_show(wk); format!("v {} {} {} {}{}", k, vk, b01(*script), hex_or_dash(hash), r) }
+            Op::Wd { wk, net, script, hash, coin } => { let (k, r) = wk_show(wk); format!("w {} {} {} {} {}{}", k, net, b01(*script), hash.show(), coin, r) }
+            Op::Vote { wk, vk, script, hash } => { let (k, r) = wk_show(wk); format!("v {} {} {} {}{}", k, vk, b01(*script), hash.show(), r) }
             Op::Prop { wk, kind, policy, id } => {
                 let (k, r) = wk_show(wk);
                 format!("g {} {} {} {}{}", k, kind, policy.as_ref().map(|p| hex_or_dash(p)).unwrap_or("~".into()), id, r)
@@ -119,8 +124,8 @@ fn parse(toks: &[String]) -> Vec<Op> {
                 Op::Mint { policy, plutus, is_ref, asset, amount, set }
             }
             "x" => { let k = p.next(); let kind = p.next().parse().unwrap(); let script = p.next() == "1"; let id = p.next().parse().unwrap(); let wk = p.wk(k); Op::Cert { wk, kind, script, id } }
-            "w" => { let k = p.next(); let net = p.next().parse().unwrap(); let script = p.next() == "1"; let hash = unhex_or_dash(p.next()); let coin = p.next().parse().unwrap(); let wk = p.wk(k); Op::Wd { wk, net, script, hash, coin } }
-            "v" => { let k = p.next(); let vk = p.next().parse().unwrap(); let script = p.next() == "1"; let hash = unhex_or_dash(p.next()); let wk = p.wk(k); Op::Vote { wk, vk, script, hash } }
+            "w" => { let k = p.next(); let net = p.next().parse().unwrap(); let script = p.next() == "1"; let hash = H::parse(p.next()); let coin = p.next().parse().unwrap(); let wk = p.wk(k); Op::Wd { wk, net, script, hash, coin } }
+            "v" => { let k = p.next(); let vk = p.next().parse().unwrap(); let script = p.next() == "1"; let hash = H::parse(p.next()); let wk = p.wk(k); Op::Vote { wk, vk, script, hash } }
             "g" => { let k = p.next(); let kind = p.next().parse().unwrap(); let pol = p.next(); let policy = if pol == "~" { None } else { Some(unhex_or_dash(pol)) };
                      let id = p.next().parse().unwrap(); let wk = p.wk(k); Op::Prop { wk, kind, policy, id } }
             _ => panic!("case syntax"),
@@ -166,7 +171,19 @@ fn native_source(h: &H, pos: usize) -> NativeScriptSource {
         None => NativeScriptSource::new_ref_input(&scripthash_b(&h.bytes), &ref_input(pos), 10),
     }
 }
-fn plutus_witness(h: &H, rid: u64, pos: usize) -> PlutusWitness { PlutusWitness::new_with_ref_without_datum(&plutus_source(h, pos), &redeemer(rid)) }
+fn plutus_witness(h: &H, rid: u64, pos: usize) -> PlutusWitness {
+    // the datum (none / inline / reference input) is irrelevant for pointers; it is varied to exercise the witness collection
+    match rid % 3 {
+        0 => PlutusWitness::new_with_ref_without_datum(&plutus_source(h, pos), &redeemer(rid)),
+        1 => PlutusWitness::new_with_ref(&plutus_source(h, pos), &DatumSource::new(&PlutusData::new_integer(&BigInt::from(rid + 1000))), &redeemer(rid)),
+        _ => PlutusWitness::new_with_ref(&plutus_source(h, pos), &DatumSource::new_ref_input(&ref_input(5000 + pos)), &redeemer(rid)),
+    }
+}
+/// the witness source of a certificate: reference script carrying the credential hash, or (id divisible by 3) an inline script
+fn cert_wit_hash(id: u64, plutus: bool) -> H {
+    if id % 3 == 0 { H { bytes: if plutus { inline_plutus(id).hash().to_bytes() } else { inline_native(id).hash().to_bytes() }, seed: Some(id) } }
+    else { H { bytes: cert_witness_hash(id), seed: None } }
+}
 fn anchor() -> Anchor { Anchor::new(&URL::new("https://c10.example".to_string()).unwrap(), &AnchorDataHash::from_bytes(vec![0xA7; 32]).unwrap()) }
 
 /// A real certificate of CDDL kind `tag`; every field is a function of (tag, script, id).
@@ -231,6 +248,11 @@ fn mk_proposal(kind: u32, policy: &Option<Vec<u8>>, id: u64) -> VotingProposal {
         (2, None) => GovernanceAction::new_treasury_withdrawals_action(&TreasuryWithdrawalsAction::new(&TreasuryWithdrawals::new())),
         (2, Some(p)) => GovernanceAction::new_treasury_withdrawals_action(&TreasuryWithdrawalsAction::new_with_policy_hash(&TreasuryWithdrawals::new(), &scripthash_b(p))),
         (3, None) => GovernanceAction::new_no_confidence_action(&NoConfidenceAction::new()),
+        (4, None) => {
+            let mut committee = Committee::new(&UnitInterval::new(&BigNum::from(1u64), &BigNum::from(2u64)));
+            committee.add_member(&cred_of(false, &[0x0C; 28]), 100);
+            GovernanceAction::new_new_committee_action(&UpdateCommitteeAction::new(&committee, &Credentials::new()))
+        }
         (5, None) => GovernanceAction::new_new_constitution_action(&NewConstitutionAction::new(&Constitution::new(&anchor()))),
         (6, None) => GovernanceAction::new_info_action(&InfoAction::new()),
         _ => panic!("proposal kind / policy combination has no constructor"),
@@ -275,19 +297,53 @@ fn add_input(b: &mut TxInputsBuilder, kind: &InK, tx: &[u8], ix: u32, pos: usize
     let input = TransactionInput::new(&TransactionHash::from_bytes(tx.to_vec()).expect("32-byte tx hash in case"), ix);
     // some inputs carry no ada at all (the funding input f0.. and the key collateral c0.. never do)
     let value = Value::new(&BigNum::from(if tx[30] % 5 == 1 { 0 } else { 10_000_000_000u64 }));
+    let route = tx[31] as u64 + ix as u64;
+    let key_addr = |d: u8| -> Address { match route % 3 {
+        0 => EnterpriseAddress::new(0, &Credential::from_keyhash(&keyhash(ix as u64, d))).to_address(),
+        1 => BaseAddress::new(0, &Credential::from_keyhash(&keyhash(ix as u64, d)), &Credential::from_keyhash(&keyhash(ix as u64, d + 1))).to_address(),
+        _ => PointerAddress::new(0, &Credential::from_keyhash(&keyhash(ix as u64, d)), &Pointer::new_pointer(&BigNum::from(1u64), &BigNum::from(2u64), &BigNum::from(3u64))).to_address(),
+    } };
+    let script_addr = |h: &H| -> Address { match route % 2 {
+        0 => EnterpriseAddress::new(0, &Credential::from_scripthash(&scripthash_b(&h.bytes))).to_address(),
+        _ => BaseAddress::new(0, &Credential::from_scripthash(&scripthash_b(&h.bytes)), &Credential::from_keyhash(&keyhash(ix as u64, 0x24))).to_address(),
+    } };
+    let utxo = |a: &Address| TransactionUnspentOutput::new(&input, &TransactionOutput::new(a, &value));
     match kind {
-        InK::Key => match (tx[31] as u64 + ix as u64) % 3 {
+        InK::Key => match route % 5 {
             0 => b.add_key_input(&keyhash(ix as u64, 0x20), &input, &value),
-            1 => b.add_regular_input(&EnterpriseAddress::new(0, &Credential::from_keyhash(&keyhash(ix as u64, 0x21))).to_address(), &input, &value).unwrap(),
-            _ => b.add_bootstrap_input(&ByronAddress::from_base58(BYRON).unwrap(), &input, &value),
+            1 => b.add_regular_input(&key_addr(0x21), &input, &value).unwrap(),
+            2 => b.add_bootstrap_input(&ByronAddress::from_base58(BYRON).unwrap(), &input, &value),
+            3 => b.add_regular_utxo(&utxo(&key_addr(0x26))).unwrap(),
+            _ => b.add_regular_utxo(&utxo(&ByronAddress::from_base58(BYRON).unwrap().to_address())).unwrap(),
         },
-        InK::Native(h) => b.add_native_script_input(&native_source(h, pos), &input, &value),
-        InK::Plutus(h, rid) => b.add_plutus_script_input(&plutus_witness(h, *rid, pos), &input, &value),
+        InK::Native(h) => match route % 2 {
+            0 => b.add_native_script_input(&native_source(h, pos), &input, &value),
+            _ => b.add_native_script_utxo(&utxo(&script_addr(h)), &native_source(h, pos)).unwrap(),
+        },
+        InK::Plutus(h, rid) => match route % 2 {
+            0 => b.add_plutus_script_input(&plutus_witness(h, *rid, pos), &input, &value),
+            _ => b.add_plutus_script_utxo(&utxo(&script_addr(h)), &plutus_witness(h, *rid, pos)).unwrap(),
+        },
     }
 }
 
+fn deposit_of(tb: &TransactionBuilder) -> BigNum { tb.get_deposit().unwrap_or(BigNum::zero()) }
+fn builder_has_input(tb: &TransactionBuilder, inp: &TransactionInput) -> bool {
+    // the body the builder would emit (fee is irrelevant here)
+    let mut t = tb.clone(); t.set_fee(&BigNum::from(2_000_000u64));
+    match t.build_tx_unsafe() { Ok(tx) => { let i = tx.body().inputs(); (0..i.len()).any(|k| &i.get(k) == inp) } Err(_) => false }
+}
+
 fn exec(toks: &[String]) -> String {
+    // hand-written vectors about the ledger's orders / certificate table: the expected answer is part of the case, the
+    // implementation has nothing to add (the model side evaluates the spec functions on it)
+    if toks[0] == "ord" || toks[0] == "lock" { return format!("{} {}", toks[0], toks[toks.len() - 1]); }
     let ops = parse(toks);
+    let wrap = toks[0].starts_with("wrap");
+    let coinsel = toks[0].starts_with("coinsel");
+    let mut tb = new_tx_builder();
+    let mut w_certs = Certificates::new();
+    let mut w_wdrl = Withdrawals::new();
     let mut inputs = TxInputsBuilder::new();
     let mut collateral = TxInputsBuilder::new();
     let mut mint = MintBuilder::new();
@@ -310,43 +366,59 @@ fn exec(toks: &[String]) -> String {
                 };
                 let name = AssetName::new(vec![0x41, (*asset % 251) as u8, (*asset / 251) as u8]).unwrap();
                 let q = if *amount >= 0 { Int::new(&BigNum::from(*amount as u64)) } else { Int::new_negative(&BigNum::from(amount.unsigned_abs())) };
-                let r = if *set { mint.set_asset(&w, &name, &q) } else { mint.add_asset(&w, &name, &q) };
-                if r.is_ok() { n_mint += 1; }
+                let r = if wrap {
+                    // deprecated wrappers: inline native policy script only
+                    let seed = policy.seed.expect("wrap: inline native policy");
+                    assert!(plutus.is_none(), "wrap: native mint only");
+                    if *set { let mut ma = MintAssets::new(); ma.insert(&name, &q).and_then(|_| tb.set_mint_asset(&inline_native(seed), &ma)) }
+                    else { tb.add_mint_asset(&inline_native(seed), &name, &q) }
+                } else if *set { mint.set_asset(&w, &name, &q) } else { mint.add_asset(&w, &name, &q) };
+                if r.is_ok() && !wrap { n_mint += 1; }
                 r.is_ok()
             }
             Op::Cert { wk, kind, script, id } => {
                 let c = mk_cert(*kind, *script, *id);
                 cert_names.insert(c.to_hex(), format!("{}.{}.{}", kind, b01(*script), id));
-                let h = H { bytes: cert_witness_hash(*id), seed: None };
-                let r = match wk {
-                    Wk::Add => certs.add(&c),
-                    Wk::Native => certs.add_with_native_script(&c, &native_source(&h, pos)),
-                    Wk::Plutus(rid) => certs.add_with_plutus_witness(&c, &plutus_witness(&h, *rid, pos)),
-                };
-                if r.is_ok() { n_cert += 1; }
-                r.is_ok()
+                if wrap {
+                    assert!(matches!(wk, Wk::Add) && !c.has_required_script_witness(), "wrap: certificates without script witness only");
+                    w_certs.add(&c)                                   // false for a certificate that is already there
+                } else {
+                    let r = match wk {
+                        Wk::Add => certs.add(&c),
+                        Wk::Native => certs.add_with_native_script(&c, &native_source(&cert_wit_hash(*id, false), pos)),
+                        Wk::Plutus(rid) => certs.add_with_plutus_witness(&c, &plutus_witness(&cert_wit_hash(*id, true), *rid, pos)),
+                    };
+                    if r.is_ok() { n_cert += 1; }
+                    r.is_ok()
+                }
             }
             Op::Wd { wk, net, script, hash, coin } => {
-                let a = RewardAddress::new(*net, &cred_of(*script, hash));
+                let a = RewardAddress::new(*net, &cred_of(*script, &hash.bytes));
                 let coin = BigNum::from(*coin);
-                let h = H { bytes: hash.clone(), seed: None };
-                let r = match wk {
-                    Wk::Add => wdrl.add(&a, &coin),
-                    Wk::Native => wdrl.add_with_native_script(&a, &coin, &native_source(&h, pos)),
-                    Wk::Plutus(rid) => wdrl.add_with_plutus_witness(&a, &coin, &plutus_witness(&h, *rid, pos)),
-                };
-                if r.is_ok() { n_wd += 1; }
-                r.is_ok()
+                let h = hash;
+                if wrap {
+                    assert!(matches!(wk, Wk::Add) && !*script, "wrap: key withdrawals only");
+                    w_wdrl.insert(&a, &coin);
+                    true
+                } else {
+                    let r = match wk {
+                        Wk::Add => wdrl.add(&a, &coin),
+                        Wk::Native => wdrl.add_with_native_script(&a, &coin, &native_source(h, pos)),
+                        Wk::Plutus(rid) => wdrl.add_with_plutus_witness(&a, &coin, &plutus_witness(h, *rid, pos)),
+                    };
+                    if r.is_ok() { n_wd += 1; }
+                    r.is_ok()
+                }
             }
             Op::Vote { wk, vk, script, hash } => {
-                let v = mk_voter(*vk, *script, hash);
+                let v = mk_voter(*vk, *script, &hash.bytes);
                 let ga = GovernanceActionId::new(&TransactionHash::from_bytes(vec![0x6A; 32]).unwrap(), pos as u32);
                 let vp = VotingProcedure::new(VoteKind::Yes);
-                let h = H { bytes: hash.clone(), seed: None };
+                let h = hash;
                 let r = match wk {
                     Wk::Add => votes.add(&v, &ga, &vp),
-                    Wk::Native => votes.add_with_native_script(&v, &ga, &vp, &native_source(&h, pos)),
-                    Wk::Plutus(rid) => votes.add_with_plutus_witness(&v, &ga, &vp, &plutus_witness(&h, *rid, pos)),
+                    Wk::Native => votes.add_with_native_script(&v, &ga, &vp, &native_source(h, pos)),
+                    Wk::Plutus(rid) => votes.add_with_plutus_witness(&v, &ga, &vp, &plutus_witness(h, *rid, pos)),
                 };
                 if r.is_ok() { n_vote += 1; }
                 r.is_ok()
@@ -366,9 +438,6 @@ fn exec(toks: &[String]) -> String {
         };
         flags.push_str(b01(ok));
     }
-    if flags.is_empty() { flags.push('-'); }
-
-    let mut tb = new_tx_builder();
     tb.set_inputs(&inputs);
     tb.set_collateral(&collateral);
     if n_mint > 0 { tb.set_mint_builder(&mint); }
@@ -376,20 +445,49 @@ fn exec(toks: &[String]) -> String {
     if n_wd > 0 { tb.set_withdrawals_builder(&wdrl); }
     if n_vote > 0 { tb.set_voting_builder(&votes); }
     if n_prop > 0 { tb.set_voting_proposal_builder(&props); }
+    if wrap {
+        if w_certs.len() > 0 { tb.set_certs(&w_certs).expect("wrap: set_certs"); }
+        if w_wdrl.len() > 0 { tb.set_withdrawals(&w_wdrl).expect("wrap: set_withdrawals"); }
+    }
     let change = EnterpriseAddress::new(0, &Credential::from_keyhash(&keyhash(0xC4A, 0x22))).to_address();
+    // coin selection: an output that the inputs added so far cannot pay, six key UTxOs on offer
+    let mut selected = String::new(); let mut n_selected = 0;
+    if coinsel {
+        let before: Vec<TransactionInput> = { let i = tb.get_explicit_input().map(|_| inputs.inputs()).unwrap(); (0..i.len()).map(|k| i.get(k)).collect() };
+        let have = tb.get_total_input().map(|v| v.coin()).unwrap_or(BigNum::zero());
+        let need = deposit_of(&tb).checked_add(&BigNum::from([17_000_000_000u64, 60_000_000_000, 100_000_000_000][ops.len() % 3])).unwrap();
+        let _ = tb.add_output(&TransactionOutput::new(&change, &Value::new(&have.checked_add(&need).unwrap())));
+        let mut offer = TransactionUnspentOutputs::new();
+        for j in 0..6u8 {
+            let inp = TransactionInput::new(&TransactionHash::from_bytes(vec![0xA0 + j; 32]).unwrap(), j as u32);
+            let addr = EnterpriseAddress::new(0, &Credential::from_keyhash(&keyhash(j as u64, 0x27))).to_address();
+            offer.add(&TransactionUnspentOutput::new(&inp, &TransactionOutput::new(&addr, &Value::new(&BigNum::from((j as u64 + 1) * 7_000_000_000)))));
+        }
+        let strategy = if ops.len() % 2 == 0 { CoinSelectionStrategyCIP2::LargestFirst } else { CoinSelectionStrategyCIP2::LargestFirstMultiAsset };
+        let _ = tb.add_inputs_from(&offer, strategy);
+        for j in 0..6u8 {
+            let inp = TransactionInput::new(&TransactionHash::from_bytes(vec![0xA0 + j; 32]).unwrap(), j as u32);
+            // an offered outpoint is "selected" when the builder holds it now and the calls did not add it
+            if !before.contains(&inp) && builder_has_input(&tb, &inp) {
+                selected.push_str(&format!(" {}:{}", hex::encode(inp.transaction_id().to_bytes()), inp.index())); n_selected += 1; flags.push('1');
+            }
+        }
+    }
+    if flags.is_empty() { flags.push('-'); }
+    let sel = format!("S {}{}", n_selected, selected);
     let built = tb.calc_script_data_hash(&costs())
         .and_then(|_| tb.add_change_if_needed(&change))
         .and_then(|_| tb.build_tx());
-    let tx = match built { Ok(tx) => tx, Err(_) => return format!("builderr E {}", flags) };
+    let tx = match built { Ok(tx) => tx, Err(_) => return format!("builderr E {} {}", flags, sel) };
     // read everything back from the serialised transaction
-    let tx = match Transaction::from_bytes(tx.to_bytes()) { Ok(t) => t, Err(_) => return format!("reparse-err E {}", flags) };
+    let tx = match Transaction::from_bytes(tx.to_bytes()) { Ok(t) => t, Err(_) => return format!("reparse-err E {} {}", flags, sel) };
     let body = tx.body();
     let show_inputs = |tag: &str, ins: Option<TransactionInputs>| {
         let mut s = String::new(); let mut n = 0;
         if let Some(ins) = ins { n = ins.len(); for i in 0..n { let x = ins.get(i); s.push_str(&format!(" {}:{}", hex::encode(x.transaction_id().to_bytes()), x.index())); } }
         format!("{} {}{}", tag, n, s)
     };
-    let mut out = format!("ok E {} {} {}", flags, show_inputs("I", Some(body.inputs())), show_inputs("C", body.collateral()));
+    let mut out = format!("ok E {} {} {} {}", flags, sel, show_inputs("I", Some(body.inputs())), show_inputs("C", body.collateral()));
     {
         let mut s = String::new(); let mut n = 0;
         if let Some(m) = body.mint() { let k = m.keys(); n = k.len(); for i in 0..n { s.push_str(&format!(" {}", hex::encode(k.get(i).to_bytes()))); } }
@@ -454,6 +552,15 @@ impl Pool {
         }
         if v.iter().all(|b| *b == 0xEE) { v[0] = 1; }
         v
+    }
+}
+fn hp(v: Vec<u8>) -> H { H { bytes: v, seed: None } }
+/// credential hash token for a witnessed withdrawal / vote: sometimes the hash of an inline script of the witness's kind
+fn cred_tok(r: &mut Rng, pool: &Pool, wk: &Wk) -> H {
+    match wk {
+        Wk::Plutus(_) if r.chance(1, 5) => { let seed = r.below(1 << 40); H { bytes: inline_plutus(seed).hash().to_bytes(), seed: Some(seed) } }
+        Wk::Native if r.chance(1, 5) => { let seed = r.below(1 << 40); H { bytes: inline_native(seed).hash().to_bytes(), seed: Some(seed) } }
+        _ => hp(pool.pick(r)),
     }
 }
 fn shuffle<T>(r: &mut Rng, v: &mut Vec<T>) { for i in (1..v.len()).rev() { let j = r.below(i as u64 + 1) as usize; v.swap(i, j); } }
@@ -527,16 +634,18 @@ impl Gen {
         let script = r.chance(3, 5);
         let wk = self.wk(r, script);
         let coin = self.coin(r);
-        Op::Wd { wk, net: if r.chance(1, 6) { 1 } else { 0 }, script, hash: self.h28.pick(r), coin }
+        let hash = cred_tok(r, &self.h28, &wk);
+        Op::Wd { wk, net: if r.chance(1, 6) { 1 } else { 0 }, script, hash, coin }
     }
     fn vote(&mut self, r: &mut Rng) -> Op {
         let vk = r.below(3) as u8;
         let script = vk != 2 && r.chance(3, 5);
         let wk = self.wk(r, script);
-        Op::Vote { wk, vk, script, hash: self.h28.pick(r) }
+        let hash = cred_tok(r, &self.h28, &wk);
+        Op::Vote { wk, vk, script, hash }
     }
     fn prop(&mut self, r: &mut Rng, allow_nonscript_plutus: bool) -> Op {
-        let kind = *r.pick(&[0u32, 0, 1, 2, 2, 3, 5, 6]);
+        let kind = *r.pick(&[0u32, 0, 1, 2, 2, 3, 4, 5, 6]);
         let policy = if (kind == 0 || kind == 2) && r.chance(3, 5) { Some(self.h28.pick(r)) } else { None };
         let wk = match &policy {
             Some(_) => if r.chance(1, 8) { Wk::Add } else { Wk::Plutus(self.rid(r)) },
@@ -588,8 +697,8 @@ fn gen(dir: &str) {
                         Op::In { tx, ix, .. } => format!("{}:{}", hex::encode(tx), ix),
                         Op::Mint { policy, .. } => hex::encode(&policy.bytes),
                         Op::Cert { kind, script, id, .. } => format!("{}.{}.{}", kind, script, id),
-                        Op::Wd { net, script, hash, .. } => format!("{}.{}.{}", net, script, hex::encode(hash)),
-                        Op::Vote { vk, script, hash, .. } => format!("{}.{}.{}", vk, script, hex::encode(hash)),
+                        Op::Wd { net, script, hash, .. } => format!("{}.{}.{}", net, script, hex::encode(&hash.bytes)),
+                        Op::Vote { vk, script, hash, .. } => format!("{}.{}.{}", vk, script, hex::encode(&hash.bytes)),
                         Op::Prop { kind, policy, id, .. } => format!("{}.{:?}.{}", kind, policy, id),
                     };
                     if items.iter().all(|x| key(x) != key(&o)) { items.push(o); }
@@ -625,17 +734,17 @@ fn gen(dir: &str) {
         for hh in [&h, &h2] {
             for net in [0u8, 1] {
                 let c1 = g.coin(&mut r);
-                ops.push(Op::Wd { wk: Wk::Add, net, script: false, hash: hh.clone(), coin: c1 });
+                ops.push(Op::Wd { wk: Wk::Add, net, script: false, hash: hp(hh.clone()), coin: c1 });
                 let rid = g.rid(&mut r);
                 let c2 = g.coin(&mut r);
-                ops.push(Op::Wd { wk: Wk::Plutus(rid), net, script: true, hash: hh.clone(), coin: c2 });
+                ops.push(Op::Wd { wk: Wk::Plutus(rid), net, script: true, hash: hp(hh.clone()), coin: c2 });
             }
             for vk in [0u8, 1] {
-                ops.push(Op::Vote { wk: Wk::Add, vk, script: false, hash: hh.clone() });
+                ops.push(Op::Vote { wk: Wk::Add, vk, script: false, hash: hp(hh.clone()) });
                 let rid = g.rid(&mut r);
-                ops.push(Op::Vote { wk: Wk::Plutus(rid), vk, script: true, hash: hh.clone() });
+                ops.push(Op::Vote { wk: Wk::Plutus(rid), vk, script: true, hash: hp(hh.clone()) });
             }
-            ops.push(Op::Vote { wk: Wk::Add, vk: 2, script: false, hash: hh.clone() });
+            ops.push(Op::Vote { wk: Wk::Add, vk: 2, script: false, hash: hp(hh.clone()) });
         }
         shuffle(&mut r, &mut ops);
         let keep = 3 + r.below(ops.len() as u64 - 2) as usize;
@@ -655,8 +764,8 @@ fn gen(dir: &str) {
                 0 => ops.push(Op::In { col: false, kind: if r.chance(1, 2) { InK::Plutus(sh.clone(), rid) } else if r.chance(1, 2) { InK::Native(sh.clone()) } else { InK::Key }, tx: tx.clone(), ix: 1 }),
                 1 => ops.push(Op::Mint { policy: H { bytes: h.clone(), seed: None }, plutus: if r.chance(2, 3) { Some(if r.chance(1, 2) { 5 } else { rid }) } else { None }, is_ref: true, asset: r.below(2), amount: 1 + r.below(3) as i64, set: r.chance(1, 4) }),
                 2 => { let script = r.chance(2, 3); ops.push(Op::Cert { wk: if script { Wk::Plutus(rid) } else { Wk::Add }, kind: 2, script, id: 3 }) }
-                3 => { let c = g.coin(&mut r); ops.push(Op::Wd { wk: if r.chance(2, 3) { Wk::Plutus(rid) } else { Wk::Native }, net: 0, script: true, hash: h.clone(), coin: c }) }
-                4 => ops.push(Op::Vote { wk: if r.chance(2, 3) { Wk::Plutus(rid) } else { Wk::Native }, vk: 1, script: true, hash: h.clone() }),
+                3 => { let c = g.coin(&mut r); ops.push(Op::Wd { wk: if r.chance(2, 3) { Wk::Plutus(rid) } else { Wk::Native }, net: 0, script: true, hash: hp(h.clone()), coin: c }) }
+                4 => ops.push(Op::Vote { wk: if r.chance(2, 3) { Wk::Plutus(rid) } else { Wk::Native }, vk: 1, script: true, hash: hp(h.clone()) }),
                 _ => ops.push(Op::Prop { wk: if r.chance(2, 3) { Wk::Plutus(rid) } else { Wk::Add }, kind: 0, policy: if r.chance(2, 3) { Some(h.clone()) } else { None }, id: 4 }),
             }
         }
@@ -678,7 +787,7 @@ fn gen(dir: &str) {
         let mut ops = vec![g.funding(), g.key_collateral()];
         for _ in 0..(1 + r.below(4)) { ops.push(g.prop(&mut r, true)); }
         let rid = g.rid(&mut r);
-        ops.push(Op::Prop { wk: Wk::Plutus(rid), kind: *r.pick(&[0u32, 1, 2, 3, 5, 6]), policy: None, id: 20 + r.below(5) });
+        ops.push(Op::Prop { wk: Wk::Plutus(rid), kind: *r.pick(&[0u32, 1, 2, 3, 4, 5, 6]), policy: None, id: 20 + r.below(5) });
         shuffle(&mut r, &mut ops);
         emit(&mut out, "propns", &ops);
     }
@@ -721,7 +830,7 @@ fn gen(dir: &str) {
             let script = r.chance(2, 3);
             let wk = if script { if r.chance(4, 5) { Wk::Plutus(g.rid(&mut r)) } else { Wk::Native } } else { Wk::Add };
             let coin = if r.chance(1, 2) { 0 } else { g.coin(&mut r) };
-            ops.push(Op::Wd { wk, net: 0, script, hash: g.h28.pick(&mut r), coin });
+            ops.push(Op::Wd { wk, net: 0, script, hash: hp(g.h28.pick(&mut r)), coin });
         }
         if r.chance(1, 3) { ops.push(g.cert(&mut r)); }
         shuffle(&mut r, &mut ops);
@@ -748,17 +857,90 @@ fn gen(dir: &str) {
         shuffle(&mut r, &mut ops);
         emit(&mut out, "mintqty", &ops);
     }
+    // 6e. every purpose with Plutus-witnessed, native-script-witnessed and unwitnessed items interleaved (a native item must
+    //     count for the index although it carries no redeemer)
+    for _ in 0..(12 * scale) {
+        let mut g = Gen::new(&mut r);
+        let mut ops = vec![g.funding(), g.key_collateral()];
+        let which = r.below(6);
+        let n = 3 + r.below(4);
+        for k in 0..n {
+            let kind = (k + r.below(2)) % 3;                       // 0 Plutus, 1 native, 2 plain
+            let rid = g.rid(&mut r);
+            let wk = match kind { 0 => Wk::Plutus(rid), 1 => Wk::Native, _ => Wk::Add };
+            let script = kind != 2;
+            if which == 0 || which == 5 {
+                let tx = g.tx.pick(&mut r); let ix = ix(&mut r);
+                let k = match kind { 0 => InK::Plutus(hash_tok(&mut r, &g.h28, true), rid), 1 => InK::Native(hash_tok(&mut r, &g.h28, false)), _ => InK::Key };
+                ops.push(Op::In { col: false, kind: k, tx, ix });
+            }
+            if (which == 1 || which == 5) && kind != 2 {
+                let policy = hash_tok(&mut r, &g.h28, kind == 0);
+                let is_ref = policy.seed.is_none();
+                ops.push(Op::Mint { policy, plutus: if kind == 0 { Some(rid) } else { None }, is_ref, asset: 0, amount: 1 + r.below(3) as i64, set: false });
+            }
+            if which == 2 || which == 5 {
+                let ckind = if script { *r.pick(&[1u32, 2, 7, 8, 9, 10, 11, 12, 13, 14, 15, 16, 17, 18]) } else { r.below(19) as u32 };
+                let cscript = script && !(3..=6).contains(&ckind);
+                ops.push(Op::Cert { wk: if cscript { wk.clone() } else { Wk::Add }, kind: ckind, script: cscript, id: 20 + k });
+            }
+            if which == 3 || which == 5 {
+                let hash = cred_tok(&mut r, &g.h28, &wk); let coin = g.coin(&mut r);
+                ops.push(Op::Wd { wk: wk.clone(), net: 0, script, hash, coin });
+            }
+            if which == 4 || which == 5 {
+                let vk = if script { r.below(2) as u8 } else { r.below(3) as u8 };
+                let hash = cred_tok(&mut r, &g.h28, &wk);
+                ops.push(Op::Vote { wk: wk.clone(), vk, script, hash });
+            }
+        }
+        shuffle(&mut r, &mut ops);
+        emit(&mut out, "interleave", &ops);
+    }
+    // 6f. the deprecated TransactionBuilder wrappers: set_certs / set_withdrawals (collections of unwitnessed items, repeated
+    //     items included), add_mint_asset / set_mint_asset (inline native policy scripts), next to Plutus inputs
+    for _ in 0..(12 * scale) {
+        let mut g = Gen::new(&mut r);
+        let mut ops = vec![g.funding(), g.key_collateral()];
+        for _ in 0..r.below(4) { ops.push(g.input(&mut r, false, 60)); }
+        for _ in 0..r.below(6) {
+            let kind = r.below(19) as u32;
+            ops.push(Op::Cert { wk: Wk::Add, kind, script: kind == 0 && r.chance(1, 2), id: r.below(4) });
+        }
+        for _ in 0..r.below(5) {
+            let coin = g.coin(&mut r);
+            ops.push(Op::Wd { wk: Wk::Add, net: 0, script: false, hash: hp(g.h28.pick(&mut r)), coin });
+        }
+        for _ in 0..r.below(4) {
+            let seed = r.below(3) + 1;                             // few policies: repeated calls for one policy
+            let set = r.chance(1, 3);
+            ops.push(Op::Mint { policy: H { bytes: inline_native(seed).hash().to_bytes(), seed: Some(seed) }, plutus: None, is_ref: false,
+                                asset: if set { 10 } else { r.below(2) }, amount: if r.chance(1, 10) { 0 } else { 1 + r.below(4) as i64 }, set });
+        }
+        shuffle(&mut r, &mut ops);
+        emit(&mut out, "wrap", &ops);
+    }
+    // 6g. inputs selected by the builder (add_inputs_from) next to script inputs: the selected key inputs shift the spend indices
+    for _ in 0..(12 * scale) {
+        let mut g = Gen::new(&mut r);
+        let mut ops = vec![g.key_collateral()];
+        for _ in 0..(1 + r.below(4)) { ops.push(g.input(&mut r, false, 70)); }
+        if r.chance(1, 2) { ops.push(g.wd(&mut r)); }
+        if r.chance(1, 2) { ops.push(g.cert(&mut r)); }
+        shuffle(&mut r, &mut ops);
+        emit(&mut out, "coinsel", &ops);
+    }
     // 7. no collateral although Plutus witnesses are present (build_tx refuses), and nothing Plutus at all
     for _ in 0..(6 * scale) {
         let mut g = Gen::new(&mut r);
         let mut ops = vec![g.funding()];
-        if r.chance(1, 2) { ops.push(g.input(&mut r, false, 100)); } else { let rid = g.rid(&mut r); let c = g.coin(&mut r); ops.push(Op::Wd { wk: Wk::Plutus(rid), net: 0, script: true, hash: g.h28.pick(&mut r), coin: c }); }
+        if r.chance(1, 2) { ops.push(g.input(&mut r, false, 100)); } else { let rid = g.rid(&mut r); let c = g.coin(&mut r); ops.push(Op::Wd { wk: Wk::Plutus(rid), net: 0, script: true, hash: hp(g.h28.pick(&mut r)), coin: c }); }
         if r.chance(1, 3) { ops.push(g.input(&mut r, true, 100)); }
         emit(&mut out, "nocoll", &ops);
         let mut ops = vec![g.funding()];
         for _ in 0..r.below(4) { ops.push(g.input(&mut r, false, 0)); }
         let c = g.coin(&mut r);
-        ops.push(Op::Wd { wk: Wk::Add, net: 0, script: false, hash: g.h28.pick(&mut r), coin: c });
+        ops.push(Op::Wd { wk: Wk::Add, net: 0, script: false, hash: hp(g.h28.pick(&mut r)), coin: c });
         emit(&mut out, "plain", &ops);
     }
     // 8. long cases
